@@ -202,6 +202,48 @@ func c16Scenario(c *Ctx, idx int, r *Rng) (mline, mimpl, mcase string) {
 				if wr, ex := writable(f); ex && !wr {
 					fail("after a successful `git lfs lock` the file is not writable", f, "")
 				}
+				if r.Chance(25) && table()[f] == "alice" && !modified[f] {
+					// directed: the user's own lock, an unlock that the SERVER refuses (expired credentials, a proxy's
+					// 403/404): nothing is released, so nothing may change locally either
+					um := Pick(r, []string{"403", "404", "403", "500"})
+					srv.mu.Lock()
+					srv.user, srv.unlockMode = "alice", um
+					srv.mu.Unlock()
+					byId := r.Bool()
+					args := []string{"unlock", f}
+					if byId {
+						args = []string{"unlock", "--id", idOf(f)}
+					}
+					_, ucode := w.runLfs(args...)
+					srv.mu.Lock()
+					reached := srv.unlockMode == ""
+					srv.unlockMode = ""
+					srv.mu.Unlock()
+					if reached {
+						log("%s [%s] -> %d", strings.Join(args, " "), um, ucode)
+						if byId {
+							var n int
+							fmt.Sscan(strings.TrimLeft(idOf(f), "LB"), &n)
+							mops = append(mops, fmt.Sprintf("I:%d:0:0:refuse", n))
+						} else {
+							mops = append(mops, fmt.Sprintf("U:%d:0:0:refuse", pidx[f]))
+						}
+						observe()
+						c.R.Count("unlock.refused-by-server")
+						found := false
+						for _, cp := range cachePaths() {
+							if cp == f {
+								found = true
+							}
+						}
+						if table()[f] == "alice" && !found {
+							fail("the local lock cache no longer lists a lock the server still holds for the current user", f+" (the unlock request was refused with "+um+")", "")
+						}
+						if wr, ex := writable(f); ex && !wr && readonly {
+							fail("a lockable file whose lock the current user holds is read-only", f+" (after a refused unlock)", "")
+						}
+					}
+				}
 				if r.Chance(45) {
 					// directed: work on the locked file, then try to give the lock back without committing
 					if fh, err := os.OpenFile(filepath.Join(w.dir, f), os.O_APPEND|os.O_WRONLY, 0); err == nil {
@@ -303,8 +345,13 @@ func c16Scenario(c *Ctx, idx int, r *Rng) (mline, mimpl, mcase string) {
 			if force {
 				args = append(args, "--force")
 			}
+			umode := "ok"
+			if r.Chance(25) {
+				umode = Pick(r, []string{"403", "404", "500", "501"}) // the unlock request itself is refused: nothing is released
+			}
 			srv.mu.Lock()
 			srv.user = "alice"
+			srv.unlockMode = umode
 			srv.mu.Unlock()
 			var code int
 			if d := filepath.Dir(f); d != "." && r.Chance(50) {
@@ -316,9 +363,30 @@ func c16Scenario(c *Ctx, idx int, r *Rng) (mline, mimpl, mcase string) {
 			} else {
 				_, code = w.runLfs(args...)
 			}
-			log("%s (modified=%v) -> %d", strings.Join(args, " "), mod, code)
-			mops = append(mops, fmt.Sprintf("U:%d:%s:%s:ok", pidx[f], b01(force), b01(mod)))
+			srv.mu.Lock()
+			reached := srv.unlockMode == "" // the one-shot refusal was consumed: the unlock request did reach the server
+			srv.unlockMode = ""
+			srv.mu.Unlock()
+			if umode == "ok" || !reached {
+				umode = "ok"
+			}
+			log("%s (modified=%v) [%s] -> %d", strings.Join(args, " "), mod, umode, code)
+			mops = append(mops, fmt.Sprintf("U:%d:%s:%s:%s", pidx[f], b01(force), b01(mod), sv(umode)))
 			observe()
+			if umode != "ok" {
+				c.R.Count("unlock.refused-by-server")
+				if heldBefore == "alice" && table()[f] == "alice" {
+					found := false
+					for _, cp := range cachePaths() {
+						if cp == f {
+							found = true
+						}
+					}
+					if !found {
+						fail("the local lock cache no longer lists a lock the server still holds for the current user", f+" (the unlock request was refused with "+umode+")", "")
+					}
+				}
+			}
 			if mod && !force && heldBefore != "" && table()[f] != heldBefore {
 				fail("`git lfs unlock` without --force released the lock of a file with uncommitted changes", f, "")
 			}
